@@ -340,7 +340,10 @@ theorem envStep_invU (s : St) (e : EnvOp) (h : InvU s) : InvU (envStep s e) := b
     · exact h
   case peerClose i =>
     split
-    · rename_i c hc; exact updClient_invU s i c _ h hc
+    · rename_i c hc
+      split
+      · exact updClient_invU s i c _ h hc
+      · exact h
     · exact h
   case dial i =>
     split
